@@ -4,8 +4,12 @@ from harness import corr_world as cw
 from harness import worlds
 
 PROP = "C01"
-LEAN_MODULE = "Ztr.Props.C10"
-THEOREMS = ['Ztr.Layers.C10_bases_first', 'Ztr.Layers.C10_once']
+LEAN_MODULE = "Ztr.Props.C01"
+LEAN_DEPS = ["Ztr.Props.C10", "Ztr.Props.C03"]
+THEOREMS = ['Ztr.Runner.C01_events', 'Ztr.Runner.C01_exact_stack', 'Ztr.Runner.C01_setUp_guard',
+            'Ztr.Runner.C01_tearDown_order', 'Ztr.Runner.C01_all_torn_down', 'Ztr.Runner.C01_balance',
+            'Ztr.Runner.C01_frozen', 'Ztr.Runner.C01_rest_in_children', 'Ztr.Runner.inv_finalState',
+            'Ztr.Layers.C10_bases_first', 'Ztr.Layers.C10_once']
 RULE = ("random layer DAGs of 1-6 layers (class/instance layers, single and multiple inheritance, hooks present or "
         "absent), 0-4 tests per layer incl. unit tests, fault tables (setUp raises on attempt k / always, tearDown "
         "raises or raises NotImplementedError), options over --repeat, -x, -j N, --shuffle-seed, --layer; every "
@@ -67,6 +71,72 @@ def monitor(c):
     return None
 
 
+def state_monitor(c):
+    """The clauses of C01 on the runner's own `setup_layers` dict, read from the Python stack at every
+    layer/test event (hook-less layers included).  Returns None or a description."""
+    w = c.world
+    L = w["layers"]
+    tests = {t["id"]: t for t in w["tests"]}
+    for pid, pr in c.obs.procs.items():
+        for e in pr["events"]:
+            sl = e.get("sl")
+            if e.get("ev") not in ("lsu", "ltd", "ph") or not isinstance(sl, list):
+                continue
+            if -1 in sl:
+                continue
+            if e["ev"] == "lsu":
+                l = e["l"]
+                if l in sl:
+                    return "pid %s: setUp of layer %d while setup_layers = %r contains it" % (pid, l, sl)
+                missing = [b for b in L[l]["bases"] if b not in sl]
+                if missing:
+                    return "pid %s: setUp of layer %d while its bases %r are not in setup_layers = %r" % (pid, l, missing, sl)
+            elif e["ev"] == "ltd":
+                l = e["l"]
+                if l not in sl:
+                    return "pid %s: tearDown of layer %d which is not in setup_layers = %r" % (pid, l, sl)
+                derived = [d for d in sl if d != l and l in worlds.closure(L, d)]
+                if derived:
+                    return "pid %s: tearDown of layer %d while derived layers %r are in setup_layers" % (pid, l, derived)
+            else:
+                want = worlds.closure(L, tests[e["t"]]["layer"])
+                if set(sl) != set(want) or len(set(sl)) != len(sl):
+                    return "pid %s: test t%d (layer %d) runs with setup_layers = %r, expected exactly %r" % (
+                        pid, e["t"], tests[e["t"]]["layer"], sl, sorted(want))
+    return None
+
+
+def compare_states(ctx, c):
+    """model ghost snapshots == real `setup_layers` at every layer/test event, process by process"""
+    names = {worlds.layer_name(c.world, i): i for i in range(len(c.world["layers"]))}
+
+    def real_snaps(pr):
+        return [[e["ev"], e.get("l", e.get("t")), e.get("sl")] for e in pr["events"] if e.get("ev") in KINDS]
+
+    def model_snaps(m):
+        return [[ev[0], ev[1], sn] for ev, sn in zip(m["trace"], m.get("snaps", [])) if ev[0] in KINDS]
+
+    for pid, pr in c.obs.procs.items():
+        if pr["resume"] is None:
+            if pid != c.obs.parent_pid:
+                continue
+            m = c.parent_model
+            who = "parent"
+        else:
+            m = c.child_models.get((names.get(pr["resume"][0], -1), pr["resume"][1]))
+            who = "child %r" % (pr["resume"],)
+        if not m or "error" in m:
+            continue
+        want, got = model_snaps(m), real_snaps(pr)
+        if want != got:
+            k = next((i for i, (a, b) in enumerate(zip(want, got)) if a != b), min(len(want), len(got)))
+            ctx.drift("runner.setup_layers", "%s: setup_layers differs at event %d: model %r real %r" % (
+                who, k, want[k:k + 2], got[k:k + 2]), c.replay_obj())
+            return False
+    ctx.bump("state-compared")
+    return True
+
+
 def gen_cases(ctx):
     rng = ctx.rng
     n = 120 if ctx.quick() else 2500
@@ -104,11 +174,12 @@ def check_cases(ctx, cases):
                 ctx.bump("opt:" + k)
         if not cw.sane_run(ctx, c, PROP):
             continue
-        bad = monitor(c)
+        bad = monitor(c) or state_monitor(c)
         if bad:
             ctx.violation(bad + " (opts %r)" % d["opts"], c.replay_obj(), signature="C01:" + bad.split(":")[1][:30])
             continue
-        cw.compare_traces(ctx, c, KINDS, "runner.layers")
+        if cw.compare_traces(ctx, c, KINDS, "runner.layers"):
+            compare_states(ctx, c)
 
 
 def run(ctx):
